@@ -360,3 +360,36 @@ func VerifSumOK(e *Element, n uint64) bool {
 	}
 	return ok
 }
+
+// ---- fePow2kGeneric for EVERY k >= 1: one iteration of the real loop from an arbitrary state ----
+//
+// Invariant at the loop header: limbs < 2^54, k >= 1. Relation proved for the body: the new limbs are < 2^52
+// and their value is the square of the old value mod p, and k decreases by exactly one; the loop is left only
+// when k reached zero, and what is then stored to fe is that last square. By induction fe = t^(2^k) for every k.
+
+func inv_pow2k(a0, a1, a2, a3, a4 uint64, k uint) bool {
+	l := [5]uint64{a0, a1, a2, a3, a4}
+	return limbsBelow(&l, inBits) && k >= 1
+}
+func pre_pow2k_val(a0, a1, a2, a3, a4 uint64) verif.Int {
+	l := [5]uint64{a0, a1, a2, a3, a4}
+	return val51(&l)
+}
+func pre_pow2k_k(k uint) verif.Int { return verif.IntOf(uint64(k)) }
+func rel_pow2k(a0, a1, a2, a3, a4 uint64, k uint, pre0__ verif.Int, pre1__ verif.Int) bool {
+	l := [5]uint64{a0, a1, a2, a3, a4}
+	return limbsBelow(&l, outBits) && verif.ModEq(val51(&l), pre0__.Mul(pre0__), fP()) && verif.IntOf(uint64(k)).Add(verif.IntK(1)).Eq(pre1__)
+}
+func post_pow2k(fe *Element, pre0__ verif.Int, pre1__ verif.Int) bool {
+	return limbsBelow(&fe.inner, outBits) && verif.ModEq(val51(&fe.inner), pre0__.Mul(pre0__), fP()) && pre1__.Eq(verif.IntK(1))
+}
+
+//verif:ob prop=C04,C06,C07 name=fePow2kGeneric_every_k mode=int tags=purego cut=internal/field.fePow2kGeneric:0 inv=inv_pow2k relpre=pre_pow2k_val+pre_pow2k_k rel=rel_pow2k post=post_pow2k postret=1 bound=every_k>=1_by_one_inductive_step_of_the_real_loop
+func vh_fePow2kGeneric_every_k() {
+	t := anyElement("t")
+	verif.Assume(limbsBelow(&t.inner, inBits))
+	k := uint(verif.AnyU64("k"))
+	verif.Assume(k >= 1 && k <= 1000) // (entry only; the inductive step is for every loop counter. Keeps native replays finite.)
+	var out Element
+	fePow2kGeneric(&out, t, k)
+}
